@@ -288,8 +288,17 @@ func jsonEqual(a, b []byte) bool {
 	if len(a) == 0 || len(b) == 0 {
 		return len(a) == len(b)
 	}
-	var x, y any
-	if json.Unmarshal(a, &x) != nil || json.Unmarshal(b, &y) != nil {
+	// numbers are compared as written (not through float64, which cannot hold every JSON number)
+	dec := func(data []byte) (any, error) {
+		d := json.NewDecoder(bytes.NewReader(data))
+		d.UseNumber()
+		var x any
+		err := d.Decode(&x)
+		return x, err
+	}
+	x, err1 := dec(a)
+	y, err2 := dec(b)
+	if err1 != nil || err2 != nil {
 		return false
 	}
 	return reflect.DeepEqual(x, y)
@@ -478,7 +487,8 @@ func genScript(t *rapid.T) Script {
 		s.EmptyCodeError = true
 	}
 	if (s.Code != "" || s.EmptyCodeError) && rapid.IntRange(0, 2).Draw(t, "hasDetail") == 0 {
-		s.Detail = rapid.SampledFrom([]string{`{"a":1}`, `[1,2,{"b":null}]`, `"text"`, `42`, `{"nested":{"k":["v",true]},"u":"é"}`, `null`, `{ "spaced" : [ 1 , 2 ] }`, `""`}).Draw(t, "detail")
+		s.Detail = rapid.SampledFrom([]string{`{"a":1}`, `[1,2,{"b":null}]`, `"text"`, `42`, `{"nested":{"k":["v",true]},"u":"é"}`, `null`, `{ "spaced" : [ 1 , 2 ] }`, `""`,
+			`9007199254740993`, `{"n":12345678901234567890,"d":0.1000000000000000055511151231257827}`, `1e400`, `[-0.0,1E2,100]`}).Draw(t, "detail")
 	}
 	if rapid.IntRange(0, 11).Draw(t, "limitSized") == 0 {
 		// an error body of exactly (or one less than) the client's documented 8 KiB limit
@@ -512,7 +522,7 @@ func genScript(t *rapid.T) Script {
 var prop = &vt.Prop[Script]{
 	ID:   "C07",
 	Name: "ErrorsAcrossTheWire",
-	Rule: "error values: each of the 15 standard codes, custom codes, no code; optional JSON detail (objects, arrays, scalars, null, spaced); messages {empty, random UTF-8, beginning with the rendered code, with a status line, with both, stuttering, odd spacing}; 0-3 wrappers from {fmt %w, NewHTTPError(status)} with statuses 400-599 incl. ones without a reason phrase (419, 452, 499, 512, 599); carrier = each of the 18 Interface methods (GET, HEAD, POST, PUT, DELETE and list-based) and errors raised by the backend's BlobWriter at Write, Close or Commit (reached through a chunked writer and through PushBlob); sent through 1..3 real server->client hops, and for every hop count h <= hops; oracle = errors.Is against every standard value unchanged (HEAD carriers: the documented status mapping; ErrRangeInvalid status-based as documented), status on every hop = the specification's for the code, else the error's own HTTP status, else 500, code and detail JSON-equal, message after h hops == message after one hop; non-trivial = >= 2 hops, a wrapper, or a prefix-like message; distinct = (code, wraps, message class, carrier, hops, status)",
+	Rule: "error values: each of the 15 standard codes, custom codes, no code; optional JSON detail (objects, arrays, scalars, null, spaced, numbers that float64 cannot hold); messages {empty, random UTF-8, beginning with the rendered code, with a status line, with both, stuttering, odd spacing}; 0-3 wrappers from {fmt %w, NewHTTPError(status)} with statuses 400-599 incl. ones without a reason phrase (419, 452, 499, 512, 599); carrier = each of the 18 Interface methods (GET, HEAD, POST, PUT, DELETE and list-based) and errors raised by the backend's BlobWriter at Write, Close or Commit (reached through a chunked writer and through PushBlob); sent through 1..3 real server->client hops, and for every hop count h <= hops; oracle = errors.Is against every standard value unchanged (HEAD carriers: the documented status mapping; ErrRangeInvalid status-based as documented), status on every hop = the specification's for the code, else the error's own HTTP status, else 500, code and detail JSON-equal, message after h hops == message after one hop; non-trivial = >= 2 hops, a wrapper, or a prefix-like message; distinct = (code, wraps, message class, carrier, hops, status)",
 	Gen:  genScript,
 	Run:  run,
 }
